@@ -47,206 +47,213 @@ def run(ctx: Context) -> None:
     ds = fi.params[0]
 
     # ---- R13.1
-    bad = writes_through(fi, flow, ds)
-    ctx.check('R13.1', not bad, "no store, deletion or in-place method through the input dataset", fi, bad[0][0] if bad else fi.node,
-              construct='writes through `dataset`: ' + ('; '.join(sorted({how for _, how in bad})) if bad else 'none'))
-    copies = [c for c in method_calls(fi, 'copy') if flow.canon(c.func.value) == ('param', ds)]
-    rets = fi.returns()
-    ok_ret = bool(rets) and all('param:' + ds not in roots_of(flow, r.value) for r in rets)
-    ctx.check('R13.1', len(copies) >= 1 and ok_ret, "the result is built from dataset.copy(), never the input object", fi, copies[0] if copies else fi.node,
-              construct='new_dataset = dataset.copy(); return new_dataset')
+    with ctx.section('R13.1'):
+        bad = writes_through(fi, flow, ds)
+        ctx.check('R13.1', not bad, "no store, deletion or in-place method through the input dataset", fi, bad[0][0] if bad else fi.node,
+                  construct='writes through `dataset`: ' + ('; '.join(sorted({how for _, how in bad})) if bad else 'none'))
+        copies = [c for c in method_calls(fi, 'copy') if flow.canon(c.func.value) == ('param', ds)]
+        rets = fi.returns()
+        ok_ret = bool(rets) and all('param:' + ds not in roots_of(flow, r.value) for r in rets)
+        ctx.check('R13.1', len(copies) >= 1 and ok_ret, "the result is built from dataset.copy(), never the input object", fi, copies[0] if copies else fi.node,
+                  construct='new_dataset = dataset.copy(); return new_dataset')
 
     # ---- locate the pieces
-    loops = [n for n in walk_no_nested(fi.node) if isinstance(n, ast.For)]
-    ctx.need('R13.2', len(loops) >= 1, "normalize_depth_variables iterates over the depth coordinates", fi)
-    # data_positive_down definitions
-    dpd = [n for n in walk_no_nested(fi.node) if isinstance(n, ast.Assign) and len(n.targets) == 1
-           and isinstance(n.targets[0], ast.Name) and n.targets[0].id == 'data_positive_down']
-    ctx.need('R13.2', len(dpd) >= 2, "the current sign of the data is tracked in one variable", fi)
-    attr_defs = [n for n in dpd if isinstance(n.value, ast.Compare) and len(n.value.ops) == 1 and isinstance(n.value.ops[0], ast.Eq)
-                 and const_value(n.value.comparators[0], None) in ('down', 'up')]
-    ok2 = False
-    for n in attr_defs:
-        src = flow.resolve(n.value.left)
-        obj = None
-        if isinstance(src, ast.Call) and isinstance(src.func, ast.Attribute) and src.func.attr == 'get' and src.args \
-                and const_value(src.args[0], None) == 'positive':
-            obj = src.func.value
-        elif isinstance(src, ast.Subscript) and const_value(src.slice, None) == 'positive':
-            obj = src.value
-        if obj is not None and isinstance(obj, ast.Attribute) and obj.attr == 'attrs':
-            roots = roots_of(flow, obj.value)
-            ok2 = ('param:' + ds) in roots and 'unknown' not in roots
-            want_down = const_value(n.value.comparators[0], None) == 'down'
-            ctx.check('R13.2', ok2 and want_down, "data_positive_down = (<input variable>.attrs['positive'] == 'down')", fi, n,
-                      detail=f"roots of the object read: {sorted(roots)}")
-    ctx.need('R13.2', bool(attr_defs), "the sign is read from the 'positive' attribute", fi)
-    # the membership test guarding it also reads the input
-    tests = [st for st in walk_no_nested(fi.node) if isinstance(st, ast.If) and isinstance(st.test, ast.Compare)
-             and const_value(st.test.left, None) == 'positive' and isinstance(st.test.ops[0], ast.In)]
-    ok_t = bool(tests) and all(isinstance(t.test.comparators[0], ast.Attribute) and 'param:' + ds in roots_of(flow, t.test.comparators[0].value)
-                               and 'new' not in norm_text(t.test.comparators[0]) for t in tests)
-    ctx.check('R13.2', ok_t, "'positive' in <input variable>.attrs decides between attribute and guess", fi, tests[0] if tests else fi.node,
-              construct=f"test: {norm_text(tests[0].test) if tests else '?'}")
+    with ctx.section('locate the pieces'):
+        loops = [n for n in walk_no_nested(fi.node) if isinstance(n, ast.For)]
+        ctx.need('R13.2', len(loops) >= 1, "normalize_depth_variables iterates over the depth coordinates", fi)
+        # data_positive_down definitions
+        dpd = [n for n in walk_no_nested(fi.node) if isinstance(n, ast.Assign) and len(n.targets) == 1
+               and isinstance(n.targets[0], ast.Name) and n.targets[0].id == 'data_positive_down']
+        ctx.need('R13.2', len(dpd) >= 2, "the current sign of the data is tracked in one variable", fi)
+        attr_defs = [n for n in dpd if isinstance(n.value, ast.Compare) and len(n.value.ops) == 1 and isinstance(n.value.ops[0], ast.Eq)
+                     and const_value(n.value.comparators[0], None) in ('down', 'up')]
+        ok2 = False
+        for n in attr_defs:
+            src = flow.resolve(n.value.left)
+            obj = None
+            if isinstance(src, ast.Call) and isinstance(src.func, ast.Attribute) and src.func.attr == 'get' and src.args \
+                    and const_value(src.args[0], None) == 'positive':
+                obj = src.func.value
+            elif isinstance(src, ast.Subscript) and const_value(src.slice, None) == 'positive':
+                obj = src.value
+            if obj is not None and isinstance(obj, ast.Attribute) and obj.attr == 'attrs':
+                roots = roots_of(flow, obj.value)
+                ok2 = ('param:' + ds) in roots and 'unknown' not in roots
+                want_down = const_value(n.value.comparators[0], None) == 'down'
+                ctx.check('R13.2', ok2 and want_down, "data_positive_down = (<input variable>.attrs['positive'] == 'down')", fi, n,
+                          detail=f"roots of the object read: {sorted(roots)}")
+        ctx.need('R13.2', bool(attr_defs), "the sign is read from the 'positive' attribute", fi)
+        # the membership test guarding it also reads the input
+        tests = [st for st in walk_no_nested(fi.node) if isinstance(st, ast.If) and isinstance(st.test, ast.Compare)
+                 and const_value(st.test.left, None) == 'positive' and isinstance(st.test.ops[0], ast.In)]
+        ok_t = bool(tests) and all(isinstance(t.test.comparators[0], ast.Attribute) and 'param:' + ds in roots_of(flow, t.test.comparators[0].value)
+                                   and 'new' not in norm_text(t.test.comparators[0]) for t in tests)
+        ctx.check('R13.2', ok_t, "'positive' in <input variable>.attrs decides between attribute and guess", fi, tests[0] if tests else fi.node,
+                  construct=f"test: {norm_text(tests[0].test) if tests else '?'}")
 
     # ---- R13.5 attribute overwrite
-    attr_sets = [n for n in walk_no_nested(fi.node) if isinstance(n, ast.Assign) and isinstance(n.targets[0], ast.Subscript)
-                 and const_value(n.targets[0].slice, None) == 'positive']
-    ok5 = False
-    for n in attr_sets:
-        g = _guard_tests(fi, n)
-        v = n.value
-        ok_v = (isinstance(v, ast.IfExp) and const_value(v.body, None) == 'down' and const_value(v.orelse, None) == 'up'
-                and flow.canon(v.test) == ('param', 'positive_down'))
-        ok5 = ('positive_down is not None', True) in g and ok_v
-        ctx.check('R13.5', ok5, "the positive attribute is rewritten only when positive_down is given: 'down' if positive_down else 'up'", fi, n)
-    ctx.need('R13.5', bool(attr_sets), "the positive attribute of the copy is set", fi)
+    with ctx.section('R13.5 attribute overwrite'):
+        attr_sets = [n for n in walk_no_nested(fi.node) if isinstance(n, ast.Assign) and isinstance(n.targets[0], ast.Subscript)
+                     and const_value(n.targets[0].slice, None) == 'positive']
+        ok5 = False
+        for n in attr_sets:
+            g = _guard_tests(fi, n)
+            v = n.value
+            ok_v = (isinstance(v, ast.IfExp) and const_value(v.body, None) == 'down' and const_value(v.orelse, None) == 'up'
+                    and flow.canon(v.test) == ('param', 'positive_down'))
+            ok5 = ('positive_down is not None', True) in g and ok_v
+            ctx.check('R13.5', ok5, "the positive attribute is rewritten only when positive_down is given: 'down' if positive_down else 'up'", fi, n)
+        ctx.need('R13.5', bool(attr_sets), "the positive attribute of the copy is set", fi)
 
     # ---- R13.3 flips
-    flips = []
-    for n in ast.walk(fi.node):
-        if (isinstance(n, ast.BinOp) and isinstance(n.op, ast.Mult) and (const_value(n.left, None) == -1 or const_value(n.right, None) == -1)) \
-                or (isinstance(n, ast.UnaryOp) and isinstance(n.op, ast.USub) and not isinstance(n.operand, ast.Constant)):
-            flips.append(n)
-    ctx.need('R13.3', len(flips) >= 2, "coordinate and bounds values are negated", fi)
-    flip_guard = None
-    for n in flips:
-        g = _guard_tests(fi, n)
-        want = ('positive_down is not None and data_positive_down != positive_down', True)
-        ok = want in g or ('data_positive_down != positive_down and positive_down is not None', True) in g
-        ctx.check('R13.5', ok, "values are negated only when a sign is requested and differs from the data's", fi, n,
-                  construct=f"negation `{norm_text(n)}` under {[t for t, _ in g]}")
-        ifs = [st for st, inb in enclosing_ifs(fi, n)]
-        if flip_guard is None and ifs:
-            flip_guard = ifs[0]
-        same = bool(ifs) and flip_guard is not None and ifs[0] is flip_guard
-        ctx.check('R13.3', same, "coordinate and bounds negation sit under the same guard", fi, n,
-                  construct=f"negation `{norm_text(n)}` guarded by `{norm_text(ifs[0].test) if ifs else 'nothing'}`")
-    # what is negated: the copy's coordinate values, and the bounds named by the coordinate's `bounds` attribute
-    objs = []
-    for n in flips:
-        inner = n.operand if isinstance(n, ast.UnaryOp) else (n.right if const_value(n.left, None) == -1 else n.left)
-        inner = flow.resolve(inner)
-        objs.append(inner)
-    coord_ok = any(isinstance(o, ast.Attribute) and o.attr in ('values', 'data') and isinstance(o.value, ast.Name)
-                   and roots_of(flow, o.value) == {'fresh'} and 'bounds' not in norm_text(o.value) for o in objs)
-    ctx.check('R13.3', coord_ok, "the negated coordinate values are those of the copy's coordinate variable", fi, flips[0],
-              construct=f"negated: {[norm_text(o) for o in objs]}")
-    bnames = [n for n in walk_no_nested(fi.node) if isinstance(n, ast.Assign) and isinstance(n.value, ast.Subscript)
-              and const_value(n.value.slice, None) == 'bounds' and isinstance(n.value.value, ast.Attribute) and n.value.value.attr == 'attrs']
-    ok_b = False
-    if bnames:
-        bn = bnames[0]
-        bname_c = flow.canon(bn.targets[0]) if False else None
-        # bounds variable looked up by that name in the copy; negated; assigned back under that name
-        bvar = [n for n in walk_no_nested(fi.node) if isinstance(n, ast.Assign) and isinstance(n.value, ast.Subscript)
-                and isinstance(n.value.slice, ast.Name) and isinstance(bn.targets[0], ast.Name) and n.value.slice.id == bn.targets[0].id]
-        assigns = [c for c in method_calls(fi, 'assign') if c.args and isinstance(c.args[0], ast.Dict) and len(c.args[0].keys) == 1
-                   and isinstance(c.args[0].keys[0], ast.Name) and isinstance(bn.targets[0], ast.Name) and c.args[0].keys[0].id == bn.targets[0].id]
-        if bvar and assigns:
-            tup = assigns[0].args[0].values[0]
-            bv = bvar[0].targets[0]
-            if isinstance(tup, ast.Tuple) and len(tup.elts) == 4 and isinstance(bv, ast.Name):
-                ok_b = (norm_text(tup.elts[0]) == f"{bv.id}.dims" and _is_negation_of_values(flow, tup.elts[1], flow.canon(ast.Name(id=bv.id, ctx=ast.Load())) if False else flow.canon(bvar[0].value))
-                        and norm_text(tup.elts[2]) == f"{bv.id}.attrs" and norm_text(tup.elts[3]) == f"{bv.id}.encoding"
-                        and roots_of(flow, bvar[0].value.value) == {'fresh'})
-    ctx.check('R13.3', ok_b, "bounds named by the coordinate's `bounds` attribute are negated and stored back under that name with dims/attrs/encoding", fi,
-              bnames[0] if bnames else fi.node, construct='new_dataset.assign({bounds_name: (dims, -1 * values, attrs, encoding)})')
-    missing_ok = any(isinstance(n, ast.Try) and any(norm_text(h.type) == 'KeyError' for h in n.handlers if h.type is not None)
-                     and any(b is bnames[0] for b in n.body) for n in walk_no_nested(fi.node)) if bnames else False
-    ctx.check('R13.3', missing_ok, "a coordinate without bounds is simply not bounds-flipped", fi, bnames[0] if bnames else fi.node,
-              construct='try: bounds lookup except KeyError')
-    # stored back under the coordinate's own name, both for dimension and non dimension coordinates
-    stores = [c for c in calls_in(fi) if isinstance(c.func, ast.Attribute) and c.func.attr in ('assign', 'assign_coords')
-              and c.args and isinstance(c.args[0], ast.Dict) and len(c.args[0].keys) == 1 and norm_text(c.args[0].keys[0]) == 'name']
-    ok_s = len(stores) == 2
-    for c in stores:
-        v = c.args[0].values[0]
-        if c.func.attr == 'assign':
-            ok_s = ok_s and isinstance(v, ast.Tuple) and len(v.elts) == 4 and norm_text(v.elts[0]) == '[dimension]' \
-                and norm_text(v.elts[2]).endswith('.attrs') and norm_text(v.elts[3]).endswith('.encoding')
-        g = _guard_tests(fi, c)
-        ok_s = ok_s and ((('name == dimension', True) in g) == (c.func.attr == 'assign_coords'))
-    ctx.check('R13.3', ok_s, "flipped values replace the coordinate under its own name (assign_coords for a dimension coordinate, assign otherwise)", fi,
-              stores[0] if stores else fi.node, construct=f"stores: {[norm_text(c.func) for c in stores]}")
-    # attrs and encoding of a dimension coordinate are carried over too
-    carry = [n for n in walk_no_nested(fi.node) if isinstance(n, ast.Assign) and isinstance(n.targets[0], ast.Attribute)
-             and n.targets[0].attr in ('attrs', 'encoding') and norm_text(n.targets[0].value) == 'new_dataset[name]']
-    ctx.check('R13.3', {n.targets[0].attr for n in carry} == {'attrs', 'encoding'}, "a flipped dimension coordinate keeps its attrs and encoding", fi,
-              carry[0] if carry else fi.node, construct=f"carried: {sorted(n.targets[0].attr for n in carry)}")
-    upd = [n for n in dpd if flow.canon(n.value) == ('param', 'positive_down')]
-    ok_u = False
-    if upd and flip_guard is not None:
-        ok_u = any(st is flip_guard for st, inb in enclosing_ifs(fi, upd[0]))
-    ctx.check('R13.3', ok_u, "after a flip the current sign becomes the requested one (inside the flip guard, before the ordering test)", fi,
-              upd[0] if upd else fi.node, construct='data_positive_down = positive_down')
+    with ctx.section('R13.3 flips'):
+        flips = []
+        for n in ast.walk(fi.node):
+            if (isinstance(n, ast.BinOp) and isinstance(n.op, ast.Mult) and (const_value(n.left, None) == -1 or const_value(n.right, None) == -1)) \
+                    or (isinstance(n, ast.UnaryOp) and isinstance(n.op, ast.USub) and not isinstance(n.operand, ast.Constant)):
+                flips.append(n)
+        ctx.need('R13.3', len(flips) >= 2, "coordinate and bounds values are negated", fi)
+        flip_guard = None
+        for n in flips:
+            g = _guard_tests(fi, n)
+            want = ('positive_down is not None and data_positive_down != positive_down', True)
+            ok = want in g or ('data_positive_down != positive_down and positive_down is not None', True) in g
+            ctx.check('R13.5', ok, "values are negated only when a sign is requested and differs from the data's", fi, n,
+                      construct=f"negation `{norm_text(n)}` under {[t for t, _ in g]}")
+            ifs = [st for st, inb in enclosing_ifs(fi, n)]
+            if flip_guard is None and ifs:
+                flip_guard = ifs[0]
+            same = bool(ifs) and flip_guard is not None and ifs[0] is flip_guard
+            ctx.check('R13.3', same, "coordinate and bounds negation sit under the same guard", fi, n,
+                      construct=f"negation `{norm_text(n)}` guarded by `{norm_text(ifs[0].test) if ifs else 'nothing'}`")
+        # what is negated: the copy's coordinate values, and the bounds named by the coordinate's `bounds` attribute
+        objs = []
+        for n in flips:
+            inner = n.operand if isinstance(n, ast.UnaryOp) else (n.right if const_value(n.left, None) == -1 else n.left)
+            inner = flow.resolve(inner)
+            objs.append(inner)
+        coord_ok = any(isinstance(o, ast.Attribute) and o.attr in ('values', 'data') and isinstance(o.value, ast.Name)
+                       and roots_of(flow, o.value) == {'fresh'} and 'bounds' not in norm_text(o.value) for o in objs)
+        ctx.check('R13.3', coord_ok, "the negated coordinate values are those of the copy's coordinate variable", fi, flips[0],
+                  construct=f"negated: {[norm_text(o) for o in objs]}")
+        bnames = [n for n in walk_no_nested(fi.node) if isinstance(n, ast.Assign) and isinstance(n.value, ast.Subscript)
+                  and const_value(n.value.slice, None) == 'bounds' and isinstance(n.value.value, ast.Attribute) and n.value.value.attr == 'attrs']
+        ok_b = False
+        if bnames:
+            bn = bnames[0]
+            bname_c = flow.canon(bn.targets[0]) if False else None
+            # bounds variable looked up by that name in the copy; negated; assigned back under that name
+            bvar = [n for n in walk_no_nested(fi.node) if isinstance(n, ast.Assign) and isinstance(n.value, ast.Subscript)
+                    and isinstance(n.value.slice, ast.Name) and isinstance(bn.targets[0], ast.Name) and n.value.slice.id == bn.targets[0].id]
+            assigns = [c for c in method_calls(fi, 'assign') if c.args and isinstance(c.args[0], ast.Dict) and len(c.args[0].keys) == 1
+                       and isinstance(c.args[0].keys[0], ast.Name) and isinstance(bn.targets[0], ast.Name) and c.args[0].keys[0].id == bn.targets[0].id]
+            if bvar and assigns:
+                tup = assigns[0].args[0].values[0]
+                bv = bvar[0].targets[0]
+                if isinstance(tup, ast.Tuple) and len(tup.elts) == 4 and isinstance(bv, ast.Name):
+                    ok_b = (norm_text(tup.elts[0]) == f"{bv.id}.dims" and _is_negation_of_values(flow, tup.elts[1], flow.canon(ast.Name(id=bv.id, ctx=ast.Load())) if False else flow.canon(bvar[0].value))
+                            and norm_text(tup.elts[2]) == f"{bv.id}.attrs" and norm_text(tup.elts[3]) == f"{bv.id}.encoding"
+                            and roots_of(flow, bvar[0].value.value) == {'fresh'})
+        ctx.check('R13.3', ok_b, "bounds named by the coordinate's `bounds` attribute are negated and stored back under that name with dims/attrs/encoding", fi,
+                  bnames[0] if bnames else fi.node, construct='new_dataset.assign({bounds_name: (dims, -1 * values, attrs, encoding)})')
+        missing_ok = any(isinstance(n, ast.Try) and any(norm_text(h.type) == 'KeyError' for h in n.handlers if h.type is not None)
+                         and any(b is bnames[0] for b in n.body) for n in walk_no_nested(fi.node)) if bnames else False
+        ctx.check('R13.3', missing_ok, "a coordinate without bounds is simply not bounds-flipped", fi, bnames[0] if bnames else fi.node,
+                  construct='try: bounds lookup except KeyError')
+        # stored back under the coordinate's own name, both for dimension and non dimension coordinates
+        stores = [c for c in calls_in(fi) if isinstance(c.func, ast.Attribute) and c.func.attr in ('assign', 'assign_coords')
+                  and c.args and isinstance(c.args[0], ast.Dict) and len(c.args[0].keys) == 1 and norm_text(c.args[0].keys[0]) == 'name']
+        ok_s = len(stores) == 2
+        for c in stores:
+            v = c.args[0].values[0]
+            if c.func.attr == 'assign':
+                ok_s = ok_s and isinstance(v, ast.Tuple) and len(v.elts) == 4 and norm_text(v.elts[0]) == '[dimension]' \
+                    and norm_text(v.elts[2]).endswith('.attrs') and norm_text(v.elts[3]).endswith('.encoding')
+            g = _guard_tests(fi, c)
+            ok_s = ok_s and ((('name == dimension', True) in g) == (c.func.attr == 'assign_coords'))
+        ctx.check('R13.3', ok_s, "flipped values replace the coordinate under its own name (assign_coords for a dimension coordinate, assign otherwise)", fi,
+                  stores[0] if stores else fi.node, construct=f"stores: {[norm_text(c.func) for c in stores]}")
+        # attrs and encoding of a dimension coordinate are carried over too
+        carry = [n for n in walk_no_nested(fi.node) if isinstance(n, ast.Assign) and isinstance(n.targets[0], ast.Attribute)
+                 and n.targets[0].attr in ('attrs', 'encoding') and norm_text(n.targets[0].value) == 'new_dataset[name]']
+        ctx.check('R13.3', {n.targets[0].attr for n in carry} == {'attrs', 'encoding'}, "a flipped dimension coordinate keeps its attrs and encoding", fi,
+                  carry[0] if carry else fi.node, construct=f"carried: {sorted(n.targets[0].attr for n in carry)}")
+        upd = [n for n in dpd if flow.canon(n.value) == ('param', 'positive_down')]
+        ok_u = False
+        if upd and flip_guard is not None:
+            ok_u = any(st is flip_guard for st, inb in enclosing_ifs(fi, upd[0]))
+        ctx.check('R13.3', ok_u, "after a flip the current sign becomes the requested one (inside the flip guard, before the ordering test)", fi,
+                  upd[0] if upd else fi.node, construct='data_positive_down = positive_down')
 
     # ---- R13.4 ordering
-    order = [n for n in walk_no_nested(fi.node) if isinstance(n, ast.Assign) and isinstance(n.targets[0], ast.Name)
-             and n.targets[0].id == 'data_deep_to_shallow']
-    ctx.need('R13.4', len(order) == 1, "the current ordering is computed once", fi)
-    ov = order[0].value
-    ok_o = False
-    if isinstance(ov, ast.Compare) and len(ov.ops) == 1 and isinstance(ov.left, ast.Compare) and len(ov.left.ops) == 1:
-        a, b = ov.left.left, ov.left.comparators[0]
-        ca, cb = flow.canon(a), flow.canon(b)
-        first_two = (ca[0] == 'unpack' and cb[0] == 'unpack' and ca[1] == cb[1] and ca[2] == (0,) and cb[2] == (1,))
-        dpd_side = isinstance(ov.comparators[0], ast.Name) and ov.comparators[0].id == 'data_positive_down'
-        gt = isinstance(ov.left.ops[0], ast.Gt)
-        lt = isinstance(ov.left.ops[0], ast.Lt)
-        eq = isinstance(ov.ops[0], ast.Eq)
-        ne = isinstance(ov.ops[0], ast.NotEq)
-        ok_o = first_two and dpd_side and ((gt and eq) or (lt and ne))
-        src = None
-        for n in walk_no_nested(fi.node):
-            if isinstance(n, ast.Assign) and isinstance(n.targets[0], ast.Tuple) and len(n.targets[0].elts) == 2 \
-                    and isinstance(a, ast.Name) and isinstance(n.targets[0].elts[0], ast.Name) and n.targets[0].elts[0].id == a.id:
-                src = n.value
-        ok_src = (isinstance(src, ast.Subscript) and isinstance(src.slice, ast.Slice) and const_value(src.slice.lower, 0) == 0
-                  and const_value(src.slice.upper, None) == 2 and src.slice.step is None
-                  and isinstance(src.value, ast.Attribute) and src.value.attr in ('values', 'data')
-                  and roots_of(flow, src.value.value) == {'fresh'})
-        ctx.check('R13.4', bool(ok_src), "the two values compared are the first two of the copy's (possibly flipped) coordinate", fi, order[0],
-                  construct=f"d1, d2 = {norm_text(src) if src is not None else '?'}")
-    ctx.check('R13.4', ok_o, "deep-to-shallow iff (first > second) == positive-down", fi, order[0])
-    revs = [c for c in method_calls(fi, 'isel')]
-    ok_r = False
-    for c in revs:
-        if c.args and isinstance(c.args[0], ast.Dict) and len(c.args[0].keys) == 1:
-            v = c.args[0].values[0]
-            rev_slice = (isinstance(v, ast.Subscript) and norm_text(v.value).endswith('s_') and isinstance(v.slice, ast.Slice)
-                         and v.slice.lower is None and v.slice.upper is None and const_value(v.slice.step, None) == -1) or \
-                (isinstance(v, ast.Call) and dotted(v.func) == 'slice' and [const_value(x, 'x') for x in v.args] == [None, None, -1])
-            on_dataset = roots_of(flow, c.func.value) == {'fresh'} and isinstance(c.func.value, ast.Name)
-            dim_ok = norm_text(c.args[0].keys[0]) == 'dimension'
-            g = _guard_tests(fi, c)
-            guard_ok = ('deep_to_shallow is not None', True) in g and (('data_deep_to_shallow != deep_to_shallow', True) in g or ('deep_to_shallow != data_deep_to_shallow', True) in g)
-            ctx.check('R13.5', guard_ok, "the reversal happens only when an ordering is requested and differs from the data's", fi, c,
-                      construct=f"reversal under {[t for t, _ in g]}")
-            ok_r = rev_slice and on_dataset and dim_ok
-            # the reversed dataset replaces the working copy
-            st = [n for n in walk_no_nested(fi.node) if isinstance(n, ast.Assign) and n.value is c]
-            ok_r = ok_r and bool(st) and norm_text(st[0].targets[0]) == norm_text(c.func.value)
-    ctx.check('R13.4', ok_r, "a mismatch reverses the whole dataset along the coordinate's dimension ([::-1])", fi, revs[0] if revs else fi.node,
-              construct=f"reversal: {norm_text(revs[0]) if revs else 'absent'}")
-    dims = [n for n in walk_no_nested(fi.node) if isinstance(n, ast.Assign) and norm_text(n.targets[0]) == 'dimension']
-    ok_d = len(dims) == 1 and isinstance(dims[0].value, ast.Subscript) and const_value(dims[0].value.slice, None) == 0 \
-        and isinstance(dims[0].value.value, ast.Attribute) and dims[0].value.value.attr == 'dims'
-    multi = [n for n in walk_no_nested(fi.node) if isinstance(n, ast.Raise)]
-    ok_m = any(('len(variable.dims) != 1', True) in _guard_tests(fi, r) for r in multi)
-    ctx.check('R13.4', ok_d and ok_m, "the dimension is the coordinate's single dimension; multidimensional depth variables are refused", fi,
-              dims[0] if dims else fi.node, construct='dimension = variable.dims[0] after `len(variable.dims) != 1` raises')
+    with ctx.section('R13.4 ordering'):
+        order = [n for n in walk_no_nested(fi.node) if isinstance(n, ast.Assign) and isinstance(n.targets[0], ast.Name)
+                 and n.targets[0].id == 'data_deep_to_shallow']
+        ctx.need('R13.4', len(order) == 1, "the current ordering is computed once", fi)
+        ov = order[0].value
+        ok_o = False
+        if isinstance(ov, ast.Compare) and len(ov.ops) == 1 and isinstance(ov.left, ast.Compare) and len(ov.left.ops) == 1:
+            a, b = ov.left.left, ov.left.comparators[0]
+            ca, cb = flow.canon(a), flow.canon(b)
+            first_two = (ca[0] == 'unpack' and cb[0] == 'unpack' and ca[1] == cb[1] and ca[2] == (0,) and cb[2] == (1,))
+            dpd_side = isinstance(ov.comparators[0], ast.Name) and ov.comparators[0].id == 'data_positive_down'
+            gt = isinstance(ov.left.ops[0], ast.Gt)
+            lt = isinstance(ov.left.ops[0], ast.Lt)
+            eq = isinstance(ov.ops[0], ast.Eq)
+            ne = isinstance(ov.ops[0], ast.NotEq)
+            ok_o = first_two and dpd_side and ((gt and eq) or (lt and ne))
+            src = None
+            for n in walk_no_nested(fi.node):
+                if isinstance(n, ast.Assign) and isinstance(n.targets[0], ast.Tuple) and len(n.targets[0].elts) == 2 \
+                        and isinstance(a, ast.Name) and isinstance(n.targets[0].elts[0], ast.Name) and n.targets[0].elts[0].id == a.id:
+                    src = n.value
+            ok_src = (isinstance(src, ast.Subscript) and isinstance(src.slice, ast.Slice) and const_value(src.slice.lower, 0) == 0
+                      and const_value(src.slice.upper, None) == 2 and src.slice.step is None
+                      and isinstance(src.value, ast.Attribute) and src.value.attr in ('values', 'data')
+                      and roots_of(flow, src.value.value) == {'fresh'})
+            ctx.check('R13.4', bool(ok_src), "the two values compared are the first two of the copy's (possibly flipped) coordinate", fi, order[0],
+                      construct=f"d1, d2 = {norm_text(src) if src is not None else '?'}")
+        ctx.check('R13.4', ok_o, "deep-to-shallow iff (first > second) == positive-down", fi, order[0])
+        revs = [c for c in method_calls(fi, 'isel')]
+        ok_r = False
+        for c in revs:
+            if c.args and isinstance(c.args[0], ast.Dict) and len(c.args[0].keys) == 1:
+                v = c.args[0].values[0]
+                rev_slice = (isinstance(v, ast.Subscript) and norm_text(v.value).endswith('s_') and isinstance(v.slice, ast.Slice)
+                             and v.slice.lower is None and v.slice.upper is None and const_value(v.slice.step, None) == -1) or \
+                    (isinstance(v, ast.Call) and dotted(v.func) == 'slice' and [const_value(x, 'x') for x in v.args] == [None, None, -1])
+                on_dataset = roots_of(flow, c.func.value) == {'fresh'} and isinstance(c.func.value, ast.Name)
+                dim_ok = norm_text(c.args[0].keys[0]) == 'dimension'
+                g = _guard_tests(fi, c)
+                guard_ok = ('deep_to_shallow is not None', True) in g and (('data_deep_to_shallow != deep_to_shallow', True) in g or ('deep_to_shallow != data_deep_to_shallow', True) in g)
+                ctx.check('R13.5', guard_ok, "the reversal happens only when an ordering is requested and differs from the data's", fi, c,
+                          construct=f"reversal under {[t for t, _ in g]}")
+                ok_r = rev_slice and on_dataset and dim_ok
+                # the reversed dataset replaces the working copy
+                st = [n for n in walk_no_nested(fi.node) if isinstance(n, ast.Assign) and n.value is c]
+                ok_r = ok_r and bool(st) and norm_text(st[0].targets[0]) == norm_text(c.func.value)
+        ctx.check('R13.4', ok_r, "a mismatch reverses the whole dataset along the coordinate's dimension ([::-1])", fi, revs[0] if revs else fi.node,
+                  construct=f"reversal: {norm_text(revs[0]) if revs else 'absent'}")
+        dims = [n for n in walk_no_nested(fi.node) if isinstance(n, ast.Assign) and norm_text(n.targets[0]) == 'dimension']
+        ok_d = len(dims) == 1 and isinstance(dims[0].value, ast.Subscript) and const_value(dims[0].value.slice, None) == 0 \
+            and isinstance(dims[0].value.value, ast.Attribute) and dims[0].value.value.attr == 'dims'
+        multi = [n for n in walk_no_nested(fi.node) if isinstance(n, ast.Raise)]
+        ok_m = any(('len(variable.dims) != 1', True) in _guard_tests(fi, r) for r in multi)
+        ctx.check('R13.4', ok_d and ok_m, "the dimension is the coordinate's single dimension; multidimensional depth variables are refused", fi,
+                  dims[0] if dims else fi.node, construct='dimension = variable.dims[0] after `len(variable.dims) != 1` raises')
 
     # ---- R13.6 wrapper
-    for w in p.implementations(p.cls(BASE), 'normalize_depth_variables'):
-        wf = ctx.flow(w)
-        cs = [c for c in calls_in(w) if callee(ctx, w, c) == f"{DEPTH}.normalize_depth_variables"]
-        ok = (len(cs) == 1 and len(cs[0].args) == 2 and wf.canon(cs[0].args[0]) == ('attr', ('param', 'self'), 'dataset')
-              and wf.canon(cs[0].args[1]) == ('attr', ('param', 'self'), 'depth_coordinates')
-              and kwarg(cs[0], 'positive_down') is not None and wf.canon(kwarg(cs[0], 'positive_down')) == ('param', 'positive_down')
-              and kwarg(cs[0], 'deep_to_shallow') is not None and wf.canon(kwarg(cs[0], 'deep_to_shallow')) == ('param', 'deep_to_shallow')
-              and all(wf.resolve(r.value) is cs[0] for r in w.returns()))
-        ctx.check('R13.6', ok, "Convention.normalize_depth_variables forwards everything unchanged", w, cs[0] if cs else w.node)
+    with ctx.section('R13.6 wrapper'):
+        for w in p.implementations(p.cls(BASE), 'normalize_depth_variables'):
+            wf = ctx.flow(w)
+            cs = [c for c in calls_in(w) if callee(ctx, w, c) == f"{DEPTH}.normalize_depth_variables"]
+            ok = (len(cs) == 1 and len(cs[0].args) == 2 and wf.canon(cs[0].args[0]) == ('attr', ('param', 'self'), 'dataset')
+                  and wf.canon(cs[0].args[1]) == ('attr', ('param', 'self'), 'depth_coordinates')
+                  and kwarg(cs[0], 'positive_down') is not None and wf.canon(kwarg(cs[0], 'positive_down')) == ('param', 'positive_down')
+                  and kwarg(cs[0], 'deep_to_shallow') is not None and wf.canon(kwarg(cs[0], 'deep_to_shallow')) == ('param', 'deep_to_shallow')
+                  and all(wf.resolve(r.value) is cs[0] for r in w.returns()))
+            ctx.check('R13.6', ok, "Convention.normalize_depth_variables forwards everything unchanged", w, cs[0] if cs else w.node)
+
 
 
 # --------------------------------------------------------------------------- checker self-test
